@@ -799,3 +799,19 @@ def fixtures():
                 ('states', [('leaf', 'IOReady', 'D2'), ('leaf', 'IoReady', None), ('leaf', 'Idle', None)]),
                 ('events', [_ev('go', _tr(['IOReady'], 'IoReady')), _ev('back', _tr(['IoReady', 'Idle'], 'IOReady')), _ev('rest', _tr(['IoReady'], 'Idle'))])])
     return out
+
+
+def name_fixture_indices():
+    """positions (in the K2 corpus) of the fixtures whose point is the identifiers they use"""
+    n = len(fixtures())
+    return [n - 2, n - 1]
+
+
+def fam_names(mi, rnd, tier):
+    """everything observable on the look-alike-identifier fixtures (C18)"""
+    if mi.idx not in name_fixture_indices():
+        return []
+    return fam_walk(mi, rnd, tier) + fam_data(mi, rnd, tier) + fam_conv(mi, rnd, tier) + fam_guards(mi, rnd, tier)
+
+
+FAMILIES['names'] = fam_names
